@@ -25,14 +25,42 @@ func mergeSameResponseKeys(selectionSet ast.SelectionSet) ast.SelectionSet {
 			result = append(result, &cpy)
 			continue
 		}
-		if len(f.SelectionSet) != 0 {
-			merged := make(ast.SelectionSet, 0, len(prev.SelectionSet)+len(f.SelectionSet))
-			merged = append(merged, prev.SelectionSet...)
-			merged = append(merged, f.SelectionSet...)
-			prev.SelectionSet = merged
+		if len(f.SelectionSet) == 0 {
+			// a leaf selected again: it is in the response if any of its occurrences is
+			if len(f.Directives) == 0 {
+				prev.Directives = nil
+			}
+			continue
 		}
+		if !sameDirectives(prev.Directives, f.Directives) {
+			// selected under different conditions: not one field
+			result = append(result, sel)
+			continue
+		}
+		merged := make(ast.SelectionSet, 0, len(prev.SelectionSet)+len(f.SelectionSet))
+		merged = append(merged, prev.SelectionSet...)
+		merged = append(merged, f.SelectionSet...)
+		prev.SelectionSet = merged
 	}
 	return result
+}
+
+func sameDirectives(a, b ast.DirectiveList) bool {
+	if len(a) != len(b) {
+		return false
+	}
+	for i := range a {
+		if a[i].Name != b[i].Name || len(a[i].Arguments) != len(b[i].Arguments) {
+			return false
+		}
+		for j, arg := range a[i].Arguments {
+			other := b[i].Arguments[j]
+			if arg.Name != other.Name || arg.Value.String() != other.Value.String() {
+				return false
+			}
+		}
+	}
+	return true
 }
 
 func sanitizeSelectionSet(ctx *PlanningContext, selectionSet ast.SelectionSet, insertionPoint []string) (ast.SelectionSet, ScrubFields) {
